@@ -136,8 +136,11 @@ class IO(object):
         send = self.send_buffer.getvalue()
         if send == b'':
             return
-        self.raw_send(send)
+        # The buffer is emptied first: when the send is interrupted half way
+        # (a timeout fires inside it), the same bytes must not go out a second
+        # time with the next flush.
         self.send_buffer = BytesIO()
+        self.raw_send(send)
 
     def recv_reply(self):
         body = None
